@@ -231,6 +231,33 @@ func runReal(c RCase) (v *vcore.Violation, stt rstats) {
 			return x, stt
 		}
 	}
+	// every request that was not answered is retransmitted MaxRetrans times and then abandoned, whatever happened to the others
+	// meanwhile: wait until the transmit table is empty (a few more timeouts at most), then count
+	for extra := 0; extra < 40 && len(st.Srv.VerifTxTable()) > 0; extra++ {
+		time.Sleep(retrans)
+		if err := st.Barrier(); err != nil {
+			if e, ok := err.(*stack.ErrDead); ok {
+				return vcore.Violatef(e.Info.Key, "real timers: UPF fatal exit"), stt
+			}
+			return vcore.Violatef("stuck", "real timers: %v", err), stt
+		}
+		if x := absorb(true); x != nil {
+			return x, stt
+		}
+	}
+	if left := st.Srv.VerifTxTable(); len(left) > 0 {
+		var ids []string
+		for id := range left {
+			ids = append(ids, id)
+		}
+		return vcore.Violatef("not-released", "real timers (timeout %v, max %d): %d request(s) still in the transmit table %d timeouts after the loop was released: %v (neither retransmitted further nor abandoned)",
+			retrans, c.MaxRetrans, len(left), int(c.MaxRetrans)+2+40, ids), stt
+	}
+	for _, q := range reqs {
+		if !q.answered && q.copies != int(c.MaxRetrans)+1 {
+			return vcore.Violatef("retrans-count", "real timers (timeout %v, max %d): request seq %d to sock %d was never answered and was transmitted %d time(s), want %d", retrans, c.MaxRetrans, q.seq, q.sock, q.copies, int(c.MaxRetrans)+1), stt
+		}
+	}
 	for _, q := range reqs {
 		if q.after > 0 {
 			return vcore.Violatef("retired-retransmitted", "real timers (timeout %v, max %d): request seq %d to sock %d was answered while the loop was busy past its timer; after the loop had served the response it was retransmitted %d more time(s)",
